@@ -91,7 +91,13 @@ impl Operation {
             Add => a.add_mod(b, M),
             Sub => a.add_mod(M - b, M),
             Pow => a.pow_mod(b, M),
-            Mod => a.div_rem(b).1,
+            Mod => {
+                if b == U256::ZERO {
+                    U256::ZERO
+                } else {
+                    a.div_rem(b).1
+                }
+            }
             Eq => U256::from(a == b),
             Neq => U256::from(a != b),
             Lt => u_lt(&a, &b),
@@ -109,7 +115,13 @@ impl Operation {
             // TODO test with conner case when it is possible to get the number
             //      bigger then modulus
             Bxor => reduce_once(a.bitxor(b)),
-            Idiv => a / b,
+            Idiv => {
+                if b == U256::ZERO {
+                    U256::ZERO
+                } else {
+                    a / b
+                }
+            }
         }
     }
 
